@@ -23,4 +23,6 @@ def build(repo, tier, seed):
                          "effects, options, default options, Pipeline() + callback and the cache chosen by the stated rule, and evaluates nothing (group DatasetFactory.wrap:C08; Pipeline.__add__ and FunctionApplication.lift by contract)",
                          "DatasetFactory.__call__/update keyword merging and FunctionApplication.lift (inspect.signature) are not under contract (bounded stand-in: harness.lawsearch law C08 on decorator-built datasets)",
                          "L11 is a syntactic obligation over the AST of every method of every class of /repo/labrea; mix/resolve/get_dotted_key are pure by their assumed contracts"]
+    from . import ctor_c05
+    b["syntactic"] += [x for x in ctor_c05.obligations(repo) if x["name"].startswith(("DatasetFactory.", "Dataset.", "WithOptions."))]
     return b
